@@ -63,6 +63,7 @@ type Job struct {
 	Vacuity bool // the job must report the assertion labelled "vacuity" as violated
 	Raw     bool // run without redirects/summaries (lemmas about the real bodies)
 	NoMerge bool
+	RealHash bool // the table harness runs with the real hash function instead of the uninterpreted summary
 	Yield   bool // releases of a mutex call the harness hook that may run the other goroutine's operation (C14)
 }
 
@@ -396,6 +397,10 @@ func (rc *RunCtx) runJob(j Job) (res *JobResult) {
 	if pkg == nil {
 		panic("package not loaded: " + j.Pkg)
 	}
+	if j.RealHash {
+		delete(e.Redirects, qHashBetween)
+		e.InjectiveUF = ""
+	}
 	if j.Yield {
 		e.Redirects["(*sync.Mutex).Unlock"] = pkg.Func("verifYieldMutex")
 		e.Redirects["(*sync.RWMutex).Unlock"] = pkg.Func("verifYieldRW")
@@ -645,7 +650,7 @@ func (rc *RunCtx) processEvents() {
 		case "ok":
 			if rc.Spec.ContractStubs != "" {
 				rc.Notes = append(rc.Notes, "counterexample under a contract stub not reproduced natively ("+rc.Spec.ContractStubs+"): "+desc)
-			} else if rc.Spec.AbstractHash {
+			} else if rc.Spec.AbstractHash && !o.c.r.Job.RealHash {
 				rc.Notes = append(rc.Notes, "abstract counterexample not reproduced natively (it needs a hash collision that the real hash function may not have; outside the claim): "+desc+" :: "+extractRules(o.ro.output)+fmt.Sprint(o.c.ev.Model))
 			} else {
 				rc.Infra = append(rc.Infra, "counterexample did not reproduce natively (encoder or stub mismatch): "+desc)
